@@ -699,7 +699,7 @@ def add_file(w, rng, path_str, canon, value, shape_text=True):
 def gen_world(rng, presets, docgen, kind=None):
     """Returns (world, leaf path string, tag). The world maps every path spelling that the walk from
     the leaf produces; python's join_parent is the same text operation as the model's."""
-    kind = kind or rng.choice(["chain", "chain", "chain", "graph", "graph", "preset", "remote", "odd"])
+    kind = kind or rng.choice(["chain", "chain", "chain", "graph", "graph", "preset", "remote", "odd", "case"])
     w = World()
     w.presets = dict(presets)
     nodes = {}     # canonical path -> value (with extends set)
@@ -715,6 +715,23 @@ def gen_world(rng, presets, docgen, kind=None):
             elif rng.random() < 0.25:
                 v[1]["extends"] = ("s", "preset:" + rng.choice(PRESET_NAMES + ["nope"]))
                 tag += "+preset"
+            nodes[p] = v
+        leaf = names[0]
+    elif kind == "case":
+        # an ACYCLIC chain whose members' paths differ only in letter case (file and directory names):
+        # a case-sensitive file system keeps them apart
+        pool = ["/w/shared/Base.toml", "/w/shared/base.toml", "/w/shared/BASE.toml", "/w/Shared/base.toml",
+                "/w/SHARED/Base.toml", "/w/leaf.toml", "/w/Leaf.toml", "/W/leaf.toml"]
+        n = rng.randint(2, 6)
+        names = rng.sample(pool, n)
+        tag = "case-%d" % n
+        for i, p in enumerate(names):
+            v = docgen(rng)
+            if i + 1 < n:
+                v[1]["extends"] = ("s", relref(rng, p, names[i + 1]))
+            elif rng.random() < 0.3:
+                v[1]["extends"] = ("s", relref(rng, p, names[0]))     # a genuine cycle for contrast
+                tag += "+cycle"
             nodes[p] = v
         leaf = names[0]
     elif kind == "graph":
